@@ -4,12 +4,16 @@ from .manifest_data import NOTE_COMMON
 
 CLAIM = {
   "technique": "Coq model of RawDecoder.Decode with an invariant proof (consumed = emitted segments ++ pending) by induction over records and sequences; model tied to raw.go by "
-               "differential execution; record-by-record equivalence proof between the raw decoder model and the independent record grammar (Model/Wire.v), which is also evaluated inside Coq on every case; Go oracle for agreement with the full decoder",
-  "text": "Partial proof. Proved for every byte string: the segments concatenate to exactly the bytes reported as consumed (a prefix of them when the decoder stops with an error); "
-          "and (below 4 GiB) each segment has the length the independent record grammar prescribes -- whenever the raw decoder accepts and Wire.segment_stream segments the "
-          "stream at all, both give the same segments (C16_lengths). Decided per run, not yet by theorem: whenever the full decoder "
-          "(checksum ignored) accepts, the raw decoder accepts and both agree on the number of sequences and the ordered series of definitions and data messages (kind, local "
-          "number, header byte, definition contents, architecture).",
+               "differential execution; record-by-record equivalence proof between the raw decoder model and the independent record grammar (Model/Wire.v), which is also evaluated inside Coq on every case; forward simulation proof from the full decoder model (Model/Decoder.v) to the raw decoder model; Go oracle comparing the two Go decoders",
+  "text": "Proved for every byte string: the segments concatenate to exactly the bytes reported as consumed (a prefix of them when the decoder stops with an error); "
+          "(below 4 GiB) each segment has the length the independent record grammar prescribes -- whenever the raw decoder accepts and Wire.segment_stream segments the "
+          "stream at all, both give the same segments (C16_lengths); and agreement (C16_agree): whenever the model of the full decoder (any option set, checksum verified "
+          "or ignored, any read-buffer size) decodes the stream and its sequences account for every byte, the raw decoder model accepts it and its segments are, one for "
+          "one and in order, the full decoder's events -- file header (size, data size), definition (header byte hence local number, reserved byte, architecture, global "
+          "number, field and developer-field definitions), data message (header byte), CRC -- hence also the same number of sequences. The proof follows the full decoder "
+          "through every reading function (a definition consumes 5+3n(+1+3m) bytes, a data message the sum of its declared sizes whatever the bytes mean) and keeps the raw "
+          "decoder's length table equal to what the live definitions announce. Per run: both models against the Go decoders, and the Go oracle compares the two Go decoders "
+          "directly (number of sequences, ordered series of definitions and data messages).",
   "note": NOTE_COMMON + " io.ReadFull over a contiguous reader is modelled (next k bytes / EOF / ErrUnexpectedEOF). That every slice of the 130051-byte array is in bounds is proved in Props/C03.v (C03_raw_slices_fit, C03_raw_array_suffices)."}
 
 
